@@ -262,6 +262,7 @@ class C15(Prop):
         except Exception as e:
             fails.append({"what": "rewritten tree malformed", "exc": exc_kind(e)})
             return fails
+        fails += self.lookup_after_rewrite(src, search, repl)
         if got_dump != ast.dump(expected):
             fails.append(
                 {
@@ -271,6 +272,26 @@ class C15(Prop):
                 }
             )
         return fails
+
+    def lookup_after_rewrite(self, src, search, repl):
+        """find -> rewrite -> find on ONE tree object: the second lookup must give what a lookup on a fresh parse of the
+        rewritten program gives (nothing about the tree may be remembered across the change)"""
+        from doctrans.ast_utils import annotate_ancestry
+
+        try:
+            m = self.ast_parse(src, skip_docstring_remit=True)
+            self.find_in_ast(list(search), m)
+            self.RewriteAtQuery(search=list(search), replacement_node=copy.deepcopy(repl)).visit(m)
+            annotate_ancestry(m)
+            again = self.find_in_ast(list(search), m)
+            fresh = self.find_in_ast(list(search), self.ast_parse(ast.unparse(ast.fix_missing_locations(m)), skip_docstring_remit=True))
+        except Exception:
+            return []
+        a = None if again is None else ast.dump(ast.parse(ast.unparse(again)) if not isinstance(again, ast.arg) else again)
+        b = None if fresh is None else ast.dump(ast.parse(ast.unparse(fresh)) if not isinstance(fresh, ast.arg) else fresh)
+        if a != b:
+            return [{"what": "a lookup after the tree was rewritten differs from the lookup on a fresh parse of the rewritten program", "again": a and a[:200], "fresh": b and b[:200]}]
+        return []
 
     def classify(self, c, fl):
         base = ast.parse(c["src"])
